@@ -169,6 +169,9 @@ func parseCaretConstraint(version string) ([]*constraint, error) {
 		if v.stability == stabilityStable {
 			// Allow prereleases of the exact same version and above
 			baseVersionStr := fmt.Sprintf("%d.%d.%d", v.major, v.minor, v.patch)
+			if v.extra != 0 {
+				baseVersionStr += fmt.Sprintf(".%d", v.extra) // keep the fourth component of the base
+			}
 			baseVersion, err := e.NewVersion(baseVersionStr)
 			if err != nil {
 				return nil, err
@@ -191,6 +194,9 @@ func parseCaretConstraint(version string) ([]*constraint, error) {
 		// Compatible changes within the same minor version for 0.x
 		if v.stability == stabilityStable {
 			baseVersionStr := fmt.Sprintf("0.%d.%d", v.minor, v.patch)
+			if v.extra != 0 {
+				baseVersionStr += fmt.Sprintf(".%d", v.extra) // keep the fourth component of the base
+			}
 			baseVersion, err := e.NewVersion(baseVersionStr)
 			if err != nil {
 				return nil, err
@@ -213,6 +219,9 @@ func parseCaretConstraint(version string) ([]*constraint, error) {
 		// Compatible changes within the same patch version for 0.0.x
 		if v.stability == stabilityStable {
 			baseVersionStr := fmt.Sprintf("0.0.%d", v.patch)
+			if v.extra != 0 {
+				baseVersionStr += fmt.Sprintf(".%d", v.extra) // keep the fourth component of the base
+			}
 			baseVersion, err := e.NewVersion(baseVersionStr)
 			if err != nil {
 				return nil, err
@@ -582,7 +591,8 @@ func (c *constraint) matchesCaretZeroX(version *Version) bool {
 
 	// For prereleases of the same 0.minor.patch, accept them
 	if version.minor == constraintVersion.minor &&
-		version.patch == constraintVersion.patch {
+		version.patch == constraintVersion.patch &&
+		version.extra >= constraintVersion.extra {
 		return true
 	}
 
@@ -603,8 +613,8 @@ func (c *constraint) matchesCaretZeroZeroX(version *Version) bool {
 		return false
 	}
 
-	// For prereleases of the same 0.0.patch, accept them
-	if version.patch == constraintVersion.patch {
+	// For prereleases of the same 0.0.patch, accept them (not below the fourth component of the base)
+	if version.patch == constraintVersion.patch && version.extra >= constraintVersion.extra {
 		return true
 	}
 
